@@ -264,8 +264,8 @@ class Gen:
 
 
 # ================================================================== Coq terms
-T_ATTR = "str * str"
-T_NS = "option str * str"
+T_ATTR = "(str * str)"
+T_NS = "(option str * str)"
 
 
 def t_attrs(a):
@@ -355,7 +355,7 @@ def t_path(p):
 
 
 def t_vis(l):
-    return clist(l, lambda pk: f"({t_path(pk[0])}, {cnat(pk[1])})", "node_id * nat")
+    return clist(l, lambda pk: f"({t_path(pk[0])}, {cnat(pk[1])})", "(node_id * nat)")
 
 
 KW = {"any": "KAny", "other": "KOther", "local": "KLocal", "target": "KTarget"}
@@ -406,10 +406,10 @@ def t_obs(truth_tree, run, vis, info):
         if term not in outs:
             outs.append(term)
     return (f"(mkObs {t_placement(pid, info.get(pid))} {t_vis(vt)} {t_vis(vl)} {events} {t_pobs(run['parse'])} {wev} "
-            f"{clist(outs, str, 'option itree')})")
+            f"{clist(outs, str, '(option itree)')})")
 
 
-_TRIPLE = re.compile(r"\((\d+),\s*(\d+),\s*(\d+)\)")
+_TRIPLE = re.compile(r"\(\s*(\d+)\s*,\s*(\d+)\s*,\s*(\d+)\s*\)")
 
 
 def coq_judge(tag, case_terms, shard=120, timeout=900):
@@ -556,8 +556,8 @@ def build_docs(ck):
         if i % 4 == 1:  # root attributes only make sense with an Attributes map
             docs[-1]["placements"] = [p for p in docs[-1]["placements"] if p.endswith("-1")] or \
                 [pick_placements(i, "urn:a" if truth(e)["n"].startswith("{") else "", 1)[0][:-1] + "1"]
-    # D: one witness per listed finding, E: chunk boundaries
-    docs += witness_docs()
+    # D: one witness per listed finding (first, so that findings are attributed to them), E: chunk boundaries
+    docs = witness_docs() + docs
     docs += big_docs(g, r, ck.n(16, 120))
     for d in docs:
         d["xml"] = d.get("prolog", "") + render(d["el"])
@@ -581,7 +581,7 @@ def run(ck: Check):
             try:
                 rp = json.load(open(os.path.join(rdir, fn)))["replay"]
                 if "doc" in rp and "xml" in rp["doc"]:
-                    docs.insert(0, dict(rp["doc"], kind="corpus"))
+                    docs.insert(0, dict(rp["doc"]))
             except Exception:
                 pass
 
